@@ -474,11 +474,11 @@ fn wp_explore(scripts: &[usize], steps: usize, solo: &[Vec<String>], bound: usiz
         let a = run(&[])?;
         let b = run(&[])?;
         let key = |x: &wp::Exec| x.grants.iter().map(|(t, kd)| (*t, match kd { wp::Kind::Call => (0usize, 0usize), wp::Kind::Mem { write, off, .. } => (1 + usize::from(*write), *off) })).collect::<Vec<_>>();
-        if key(&a) != key(&b) {
+        if key(&a) != key(&b) && !(a.timing || b.timing) {
             return Err(format!("the default schedule is not deterministic: {:?} vs {:?}", key(&a), key(&b)));
         }
         let st = wp::explore(bound, cap, std::time::Duration::from_secs(wall_s), &mut run)?;
-        totals[format!("phase{}", phase)] = json!({"executions": st.executions, "choice_points": st.choice_points, "mem_points": st.mem_points, "abandoned": st.abandoned, "stuck": st.stuck, "capped": st.capped, "max_preemptions": st.max_preemptions});
+        totals[format!("phase{}", phase)] = json!({"executions": st.executions, "choice_points": st.choice_points, "mem_points": st.mem_points, "abandoned": st.abandoned, "stuck": st.stuck, "timing_divergences": st.timing_divergences, "capped": st.capped, "max_preemptions": st.max_preemptions});
     }
     let execs = totals["phase1"]["executions"].as_u64().unwrap_or(0) + totals["phase2"]["executions"].as_u64().unwrap_or(0);
     let cps = totals["phase1"]["choice_points"].as_u64().unwrap_or(0) + totals["phase2"]["choice_points"].as_u64().unwrap_or(0);
@@ -609,6 +609,9 @@ fn mismatch_case(m: &Mismatch) -> Value {
 /// construction). The mappings are chosen so that state kept between calls has something to confuse:
 /// (a) class names colliding under common 32-bit fingerprints, (b) more than 65536 classes (indices 2^16 apart).
 fn history_pass(acc: &mut Acc) {
+    // (0) handles parsed from recycled memory, queried by this long-lived thread (props/hist.rs): what a thread
+    // remembers from an earlier handle must not change what a shared handle answers to it
+    super::hist::reuse_history(acc);
     // (a) collisions
     let pairs = crate::families::collision_pairs();
     let mut text = String::new();
@@ -1016,6 +1019,7 @@ pub fn recheck(case: &Value) -> Vec<String> {
                 Err(_) => vec![format!("config-process-died:{}", mode)],
             }
         }
+        "reuse-history" => super::hist::recheck(case),
         "history" => {
             let mut a = Acc::new();
             history_pass(&mut a);
